@@ -35,11 +35,13 @@ def check_cache(
     from hypergraph.cache import compute_cache_key
 
     # The function alone does not identify the entry: two nodes built from one
-    # function may differ in output names, and two gates in their targets,
-    # fallback or multi_target mode (the cached routing decision is a target
-    # name that already has the fallback applied).
+    # function may differ in output names, in how their inputs are wired to the
+    # function's parameters (node.inputs lists the current input names in
+    # parameter order, so a rename that swaps two inputs changes it), and two
+    # gates in their targets, fallback or multi_target mode (the cached routing
+    # decision is a target name that already has the fallback applied).
     identity = (
-        f"{node.definition_hash}:{node.outputs!r}:{getattr(node, 'targets', None)!r}"
+        f"{node.definition_hash}:{node.inputs!r}:{node.outputs!r}:{getattr(node, 'targets', None)!r}"
         f":{getattr(node, 'fallback', None)!r}:{getattr(node, 'multi_target', None)!r}"
     )
     cache_key = compute_cache_key(identity, inputs)
